@@ -29,6 +29,9 @@ RULE = ('a case is non-trivial when the CSRF checks actually apply (enabled view
 FORM = 'application/x-www-form-urlencoded'
 BOUNDARY = 'vfb0undary'
 DEFAULT_SAFE = ['GET', 'HEAD', 'OPTIONS', 'TRACE']
+# what set_default_csrf_options() configures when called without arguments (documented defaults)
+NOARGS_DEFAULTS = {'require': True, 'token': 'csrf_token', 'header': 'X-CSRF-Token', 'safe': DEFAULT_SAFE, 'check_origin': True,
+                   'allow_no_origin': False, 'callback': None, 'noargs': True}
 
 # ------------------------------------------------------------------------------------------------------------
 # building real requests
@@ -155,7 +158,9 @@ def make_app(case):
         pol._token_factory = lambda: holder['fresh']
         config.set_csrf_storage_policy(pol)
     d = case['defaults']
-    if d is not None:
+    if d is not None and d.get('noargs'):
+        config.set_default_csrf_options()        # the documented defaults (the case carries them for the model / oracle)
+    elif d is not None:
         config.set_default_csrf_options(require_csrf=d['require'], token=d['token'], header=d['header'],
                                         safe_methods=tuple(d['safe']), check_origin=d['check_origin'],
                                         allow_no_origin=d['allow_no_origin'], callback=CALLBACKS[d['callback']])
@@ -337,7 +342,10 @@ def impl_origin(case):
     request = make_request(case['req'], trusted_setting=settings_value(case['trusted'], case.get('trusted_as', 'list')) if via == 'settings' else None)
     lst = list(case['trusted'])
     arg = None if via == 'settings' else lst
-    out = outcome(lambda: check_csrf_origin(request, trusted_origins=arg, allow_no_origin=case['allow_no_origin'], raises=case['raises']))
+    kw = {'trusted_origins': arg, 'allow_no_origin': case['allow_no_origin'], 'raises': case['raises']}
+    for k in case.get('omit', []):          # omitted arguments: the case carries the documented default (False / True / None)
+        kw.pop(k, None)
+    out = outcome(lambda: check_csrf_origin(request, **kw))
     return {'out': out, 'left': lst, 'own': own_host(case['req'])}
 
 
@@ -361,7 +369,9 @@ def impl_token(case):
     kw = {}
     if not case.get('use_defaults'):
         kw = {'token': case['token'], 'header': case['header']}
-    out = outcome(lambda: check_csrf_token(request, raises=case['raises'], **kw))
+    if not case.get('omit_raises'):
+        kw['raises'] = case['raises']
+    out = outcome(lambda: check_csrf_token(request, **kw))
     return {'out': out}
 
 
@@ -961,6 +971,8 @@ def gen_trusted(rng):
 def gen_defaults(rng):
     if rng.random() < 0.2:
         return None
+    if rng.random() < 0.08:
+        return dict(NOARGS_DEFAULTS, safe=list(DEFAULT_SAFE))
     return {'require': rng.random() < 0.8, 'token': rng.choice(TOKEN_NAMES), 'header': rng.choice(HEADER_NAMES), 'safe': list(rng.choice(SAFE_SETS)),
             'check_origin': rng.random() < 0.8, 'allow_no_origin': rng.random() < 0.35, 'callback': rng.choice(CALLBACK_KINDS)}
 
@@ -989,8 +1001,16 @@ def gen_origin_case(rng):
     if via == 'settings':
         trusted = [t for t in trusted if t]
     req = gen_req(rng, trusted, 'csrf_token', 'X-CSRF-Token', 'session', want_https='https' if rng.random() < 0.9 else 'http')
-    return {'op': 'origin', 'trusted': trusted, 'via': via, 'trusted_as': rng.choice(['list', 'nl', 'sp']) if via == 'settings' else 'list',
+    case = {'op': 'origin', 'trusted': trusted, 'via': via, 'trusted_as': rng.choice(['list', 'nl', 'sp']) if via == 'settings' else 'list',
             'allow_no_origin': rng.random() < 0.4, 'raises': rng.random() < 0.5, 'req': req}
+    omit = []
+    if rng.random() < 0.15:
+        omit.append('allow_no_origin'); case['allow_no_origin'] = False
+    if rng.random() < 0.15:
+        omit.append('raises'); case['raises'] = True
+    if omit:
+        case['omit'] = omit
+    return case
 
 
 def gen_seq_case(rng):
@@ -1014,7 +1034,10 @@ def gen_token_case(rng):
     token = 'csrf_token' if use_defaults else rng.choice(TOKEN_NAMES)
     header = 'X-CSRF-Token' if use_defaults else rng.choice(HEADER_NAMES)
     req = gen_req(rng, [], token, header, storage, method=rng.choice(['POST', 'POST', 'PUT', 'DELETE', 'GET', 'PATCH']))
-    return {'op': 'token', 'storage': storage, 'token': token, 'header': header, 'use_defaults': use_defaults, 'raises': rng.random() < 0.5, 'req': req}
+    case = {'op': 'token', 'storage': storage, 'token': token, 'header': header, 'use_defaults': use_defaults, 'raises': rng.random() < 0.5, 'req': req}
+    if case['raises'] and rng.random() < 0.3:
+        case['omit_raises'] = True
+    return case
 
 
 def gen_urlparse_case(rng):
@@ -1131,15 +1154,20 @@ def valid_case(c):
     op = c.get('op')
     if op == 'view':
         d = c['defaults']
+        if d is not None and d.get('noargs') and {k: v for k, v in d.items()} != NOARGS_DEFAULTS:
+            return False
         return (c['kind'] in ('normal', 'exc_only', 'exc_ctx', 'exc_api') and c['storage'] in ('legacy', 'session', 'cookie')
                 and c.get('trusted_as', 'list') in ('list', 'nl', 'sp') and vreq(c['req']) and (d is None or d['callback'] in CALLBACKS)
                 and not (c['storage'] == 'legacy' and c['req']['stored'] is None and not re.fullmatch(r'[0-9a-f]{40}', c['req']['fresh'])))
     if op == 'origin':
+        om = c.get('omit', [])
+        if any(k not in ('allow_no_origin', 'raises') for k in om) or ('allow_no_origin' in om and c['allow_no_origin'] is not False) or ('raises' in om and c['raises'] is not True):
+            return False
         return c.get('via', 'arg') in ('arg', 'settings') and c.get('trusted_as', 'list') in ('list', 'nl', 'sp') and vreq(c['req'])
     if op == 'seq':
         return all(vreq(q) for q in c['reqs'])
     if op == 'token':
-        return c['storage'] in ('legacy', 'session', 'cookie') and vreq(c['req'])
+        return c['storage'] in ('legacy', 'session', 'cookie') and vreq(c['req']) and not (c.get('omit_raises') and c['raises'] is not True)
     if op == 'appseq':
         cc = dict(c['cfg']); cc['op'] = 'view'
         return all(valid_case(dict(cc, req=q)) for q in c['reqs'])
@@ -1241,7 +1269,7 @@ def boundary_cases():
     toks = [('header', 'abc123'), ('header', 'abc12'), ('body', 'abc123'), ('query', 'abc123'), ('none', ''), ('body', '\u20ac'), ('header', 'ABC123')]
     for explicit in (True, False, None):
         for kind in ('normal', 'exc_only'):
-            for dflt in (None, 'req', 'noreq', 'nonames', 'noorigin', 'allowno'):
+            for dflt in (None, 'req', 'noreq', 'nonames', 'noorigin', 'allowno', 'noargs'):
                 for method in ('POST', 'GET', 'DELETE'):
                     for scheme in ('https', 'http'):
                         for o in origins:
@@ -1251,7 +1279,9 @@ def boundary_cases():
                                 if method == 'GET' and (o not in (None,) or place not in ('header', 'none')):
                                     continue
                                 d = None
-                                if dflt:
+                                if dflt == 'noargs':
+                                    d = dict(NOARGS_DEFAULTS, safe=list(DEFAULT_SAFE))
+                                elif dflt:
                                     d = {'require': dflt != 'noreq', 'token': None if dflt == 'nonames' else 'csrf_token', 'header': None if dflt == 'nonames' else 'X-CSRF-Token',
                                          'safe': DEFAULT_SAFE, 'check_origin': dflt != 'noorigin', 'allow_no_origin': dflt == 'allowno', 'callback': None}
                                 env = dict(base_env)
@@ -1284,8 +1314,11 @@ def boundary_origin_cases():
                             env['HTTP_ORIGIN' if src == 'origin' else 'HTTP_REFERER'] = v
                         elif src == 'referer':
                             continue
-                        out.append({'op': 'origin', 'trusted': trusted, 'via': 'arg', 'trusted_as': 'list', 'allow_no_origin': allow, 'raises': False,
-                                    'req': {'method': 'POST', 'scheme': 'https', 'environ': env, 'form': [], 'query': [], 'stored': 'abc123', 'fresh': 'f' * 40}})
+                        rq = {'method': 'POST', 'scheme': 'https', 'environ': env, 'form': [], 'query': [], 'stored': 'abc123', 'fresh': 'f' * 40}
+                        out.append({'op': 'origin', 'trusted': trusted, 'via': 'arg', 'trusted_as': 'list', 'allow_no_origin': allow, 'raises': False, 'req': rq})
+                        if not allow and trusted == [] and host == 'example.com':
+                            out.append({'op': 'origin', 'trusted': trusted, 'via': 'arg', 'trusted_as': 'list', 'allow_no_origin': False, 'raises': True,
+                                        'omit': ['allow_no_origin', 'raises'], 'req': rq})
     return out
 
 
